@@ -40,6 +40,8 @@ def make_batch(rng):
                  "rule r2 {\n    %s {\n        let inner = this\n        %%inner == %s\n    }\n    dep\n}" % (rng.choice([k1, "m.w.z", "l[*]"]), gen.glit(rng.choice(vals)))]
         if rng.random() < 0.4:
             lines.append("rule r3 {\n    m[ cap | this exists ] exists\n    %cap !empty\n}")
+        # reads a key that only the --input-parameters document provides (when the batch has one): every pair must see it
+        lines.append("rule rp {\n    zp == %s or zp !exists\n    zp exists or %s exists\n}" % (gen.glit(rng.choice(vals)), k1))
         rules.append("\n".join(lines) + "\n")
     return rules, docs
 
@@ -109,12 +111,17 @@ def shard(ctx):
         rules, docs = make_batch(rng)
         dtexts = [json.dumps(d) for d in docs]
         nr, nd = len(rules), len(docs)
+        # half of the batches carry an --input-parameters document (merged into every data file)
+        with_params = rng.random() < 0.5
+        PF = {"params/p.json": json.dumps({"zp": rng.choice([1, 2, 5, "x", "y", True])})} if with_params else {}
+        IT = ["-i", "{S}/params/p.json"] if with_params else []
+        ctx.res.counts["batches_with_input_parameters"] += 1 if with_params else 0
         # ---- singletons (same front end, same file names)
         single_s, single_p, crashed = {}, {}, False
         for i, rt in enumerate(rules):
             for j, dt in enumerate(dtexts):
-                fl = {"r%d.guard" % i: rt, "d%d.json" % j: dt}
-                a = ["validate", "-r", "{S}/r%d.guard" % i, "-d", "{S}/d%d.json" % j]
+                fl = dict(PF, **{"r%d.guard" % i: rt, "d%d.json" % j: dt})
+                a = ["validate", "-r", "{S}/r%d.guard" % i, "-d", "{S}/d%d.json" % j] + IT
                 rs = ctx.w.run({"k": "cli", "argv": a + ["--structured", "-S", "none", "-o", "json"], "files": fl})
                 rp = ctx.w.run({"k": "cli", "argv": a + ["-S", "none", "-o", "json"], "files": fl})
                 if rs.get("r") != "ok" or rp.get("r") != "ok":
@@ -134,7 +141,7 @@ def shard(ctx):
         want_exit = 19 if any(c == 19 for _, c in single_p.values()) else 0
         differ = len({single_p[(i, j)][0] for i in range(nr) for j in range(nd)}) > 1
         ctx.res.counts["batches_with_differing_pairs"] += 1 if differ else 0
-        fl = {}
+        fl = dict(PF)
         for i, rt in enumerate(rules):
             fl["rules/r%d.guard" % i] = rt
         for j, dt in enumerate(dtexts):
@@ -152,7 +159,7 @@ def shard(ctx):
             rargs = [x for i in a for x in ("-r", "{S}/rules/r%d.guard" % i)]
             dargs = [x for j in b for x in ("-d", "{S}/data/d%d.json" % j)]
             # plain mode: one report per (rules, data), rules-major
-            r = ctx.w.run({"k": "cli", "argv": ["validate"] + rargs + dargs + ["-S", "none", "-o", "json"], "files": fl, "events": True})
+            r = ctx.w.run({"k": "cli", "argv": ["validate"] + rargs + dargs + IT + ["-S", "none", "-o", "json"], "files": fl, "events": True})
             ctx.res.cases += 1
             case = dict(base_case, mode="plain-files", order=[a, b])
             if r.get("r") != "ok":
@@ -174,7 +181,7 @@ def shard(ctx):
                         ctx.res.distinct.add(("plain-files", nr, nd, r["code"]))
                 check_events(ctx, r.get("events") or [], nr * nd, case, "plain")
             # structured mode: one report per data file = union over the rules files
-            r = ctx.w.run({"k": "cli", "argv": ["validate"] + rargs + dargs + ["--structured", "-S", "none", "-o", "json"], "files": fl, "events": True})
+            r = ctx.w.run({"k": "cli", "argv": ["validate"] + rargs + dargs + IT + ["--structured", "-S", "none", "-o", "json"], "files": fl, "events": True})
             ctx.res.cases += 1
             case = dict(base_case, mode="structured-files", order=[a, b])
             if r.get("r") != "ok":
@@ -209,9 +216,9 @@ def shard(ctx):
         for fmt in ("junit", "sarif"):
             singles = {}
             for j in do:
-                r1 = ctx.w.run({"k": "cli", "argv": ["validate"] + rargs + ["-d", "{S}/data/d%d.json" % j, "--structured", "-S", "none", "-o", fmt], "files": fl})
+                r1 = ctx.w.run({"k": "cli", "argv": ["validate"] + rargs + IT + ["-d", "{S}/data/d%d.json" % j, "--structured", "-S", "none", "-o", fmt], "files": fl})
                 singles[j] = per_data_units(fmt, r1.get("out", "")) if r1.get("r") == "ok" else None
-            r = ctx.w.run({"k": "cli", "argv": ["validate"] + rargs + dargs + ["--structured", "-S", "none", "-o", fmt], "files": fl})
+            r = ctx.w.run({"k": "cli", "argv": ["validate"] + rargs + dargs + IT + ["--structured", "-S", "none", "-o", fmt], "files": fl})
             ctx.res.cases += 1
             case = dict(base_case, mode="structured-" + fmt, order=[ro, b])
             if r.get("r") != "ok" or any(v is None for v in singles.values()):
@@ -240,7 +247,7 @@ def shard(ctx):
         for rank, j in enumerate(perm):
             mt["data/d%d.json" % j] = 1000000 + rank * 100
         for flag in ("-a", "-m"):
-            r = ctx.w.run({"k": "cli", "argv": ["validate", "-r", "{S}/rules", "-d", "{S}/data", flag, "-S", "none", "-o", "json"], "files": fl, "mtimes": mt})
+            r = ctx.w.run({"k": "cli", "argv": ["validate", "-r", "{S}/rules", "-d", "{S}/data", flag, "-S", "none", "-o", "json"] + IT, "files": fl, "mtimes": mt})
             ctx.res.cases += 1
             case = dict(base_case, mode="dirs" + flag, mtimes=mt)
             if r.get("r") != "ok":
@@ -256,7 +263,7 @@ def shard(ctx):
                 ctx.res.distinct.add(("dirs" + flag, nr, nd, r["code"]))
         # ---- payload lists
         for extra, mode in ((["-S", "none", "-o", "json"], "payload-plain"), (["--structured", "-S", "none", "-o", "json"], "payload-structured")):
-            r = ctx.w.run({"k": "cli", "argv": ["validate", "--payload"] + extra, "stdin": json.dumps({"rules": rules, "data": dtexts})})
+            r = ctx.w.run({"k": "cli", "argv": ["validate", "--payload"] + extra + IT, "files": PF, "stdin": json.dumps({"rules": rules, "data": dtexts})})
             ctx.res.cases += 1
             case = dict(base_case, mode=mode)
             if r.get("r") != "ok":
